@@ -274,8 +274,9 @@ def kind_of(T):
 class Names:
     """One name <-> one type per generated term (a Context declares each name once)."""
 
-    def __init__(self, rng, forbidden, special=None):
+    def __init__(self, rng, forbidden, special=None, bound_special=None):
         self.rng = rng
+        self.bound_special = bound_special or []   # names used for bound variables only (e.g. constants of a LATER theory)
         self.forbidden = forbidden          # callable name -> bool (keyword terminal or constant)
         self.special = special or []        # adversarial names to use for fresh variables first
         self.name_T = {}
@@ -308,6 +309,8 @@ class Names:
     def bound_name(self, T):
         """Suggested bound name: often the name of a free variable (of the same or another type)."""
         r = self.rng.random()
+        if self.bound_special and r < 0.5:
+            return self.rng.choice(self.bound_special)
         if r < 0.35 and self.name_T:
             return self.rng.choice(sorted(self.name_T))
         if self.special and r < 0.6:
@@ -330,15 +333,23 @@ class TermGen:
         self.allow_svar = allow_svar
         self.base = [T for T in (BoolType, NatType, IntType, RealType) if T.name in sig.tycons]
         self.numeric = [T for T in (NatType, IntType, RealType) if T.name in sig.tycons]
+        self.extra_base = [TConst(n) for n, k in sorted(sig.tycons.items()) if k == 0 and n not in ("bool", "nat", "int", "real")]
         self.tva, self.tvb = TVar("a"), TVar("b")
         # index: constant -> (arg types, result) of the declared type
         self.decl = {n: strip_fun(T) for n, T in sig.consts.items()}
         self.hist = {}
+        self.odd_tvars = True
 
     # ---- types
     def rand_type(self, depth=2):
         r = self.rng.random()
         if depth == 0 or r < 0.55:
+            if self.odd_tvars and self.rng.random() < 0.08:
+                # type variables with unusual names: '_t0 looks like an internal variable of type inference but is
+                # an ordinary TVar; schematic ?'a / ?'t0 are ordinary too (only ?'_t<n> is reserved, see `reserved`)
+                return self.rng.choice([TVar("_t0"), TVar("t1"), STVar("a"), STVar("t0"), TVar("_t")])
+            if self.extra_base and self.rng.random() < 0.15:
+                return self.rng.choice(self.extra_base)      # char, string, rat, ... (nullary type constructors of the theory)
             return self.rng.choice(self.base + [self.tva, self.tva, self.tvb])
         if r < 0.70 and "set" in self.sig.tycons:
             return TConst("set", self.rand_type(depth - 1))
@@ -442,6 +453,10 @@ class TermGen:
         if n is None:
             n = rng.choice([0, 1, 2, 3, 4, 7, 10, 12, 255, 1000, rng.randint(0, 40)])
         self.count("numeral:%s" % dump_type(T))
+        if n >= 1 and "bit0" in self.sig.consts and "of_nat" in self.sig.consts and rng.random() < 0.06:
+            # binary numerals with leading zero bits (bit0 (bit1 zero) = 2): well-typed, not what the parser builds
+            self.count("numeral:non-canonical")
+            return Const("of_nat", TFun(NatType, T))(mk_binary_padded(n, rng.choice([1, 2])))
         return mk_number(T, n)
 
     def gen_abs(self, T, depth, env):
@@ -589,9 +604,14 @@ class TermGen:
                 f = Const("fun_upd", TFun(T, A, B, A, B))(f, self.gen(A, depth - 1, env), self.gen(B, depth - 1, env))
             return f
         if o == "char":
-            return mk_char(rng.choice("azAZ09_") if rng.random() < 0.8 else rng.choice(" +'\"\\\n\x00"))
+            r = rng.random()
+            if r < 0.08:
+                return Const("Char", TFun(NatType, TConst("char")))(mk_binary_padded(ord(rng.choice("azAZ09")), 1))
+            if r < 0.3:     # letters / digits outside ASCII: `\w` in Python, not LETTER / DIGIT of the grammar
+                return mk_char(rng.choice("éßλЖ٣中ºµ"))
+            return mk_char(rng.choice("azAZ09_") if r < 0.8 else rng.choice(" +'\"\\\n\x00"))
         if o == "string":
-            s = rng.choice(["a", "ab", "x1", "_u", "Hello", "", "a b", "9a", "if"])
+            s = rng.choice(["a", "ab", "x1", "_u", "Hello", "", "a b", "9a", "if", "café", "aé", "xλ", "n٣", "_ß", "Ж"])
             return mk_string(s)
         if o == "if":
             c = Const("IF", TFun(BoolType, T, T, T))
@@ -607,6 +627,20 @@ def mk_binary(n):
         return Const("one", NatType)
     c = Const("bit1" if n % 2 else "bit0", TFun(NatType, NatType))
     return c(mk_binary(n // 2))
+
+
+def mk_binary_padded(n, pad):
+    """Binary form of n with `pad` leading zero bits: ... (bit1 zero) instead of ... one."""
+    bits = []
+    while n > 0:
+        bits.append(n % 2)
+        n //= 2
+    t = Const("zero", NatType)
+    for _ in range(pad - 1):
+        t = Const("bit0", TFun(NatType, NatType))(t)
+    for b in reversed(bits):
+        t = Const("bit1" if b else "bit0", TFun(NatType, NatType))(t)
+    return t
 
 
 def mk_number(T, n):
@@ -655,6 +689,41 @@ def used_names(t, acc=None):
         acc.add(t.var_name)
         used_names(t.body, acc)
     return acc
+
+
+def map_type(T, f):
+    """Apply f bottom-up to every sub-type."""
+    if T.is_tconst() and T.args:
+        T = TConst(T.name, *[map_type(a, f) for a in T.args])
+    return f(T)
+
+
+def map_types(t, f):
+    """Apply f to every type annotation of the term."""
+    if t.is_var():
+        return Var(t.name, f(t.T))
+    if t.is_svar():
+        return SVar(t.name, f(t.T))
+    if t.is_const():
+        return Const(t.name, f(t.T))
+    if t.is_comb():
+        return Comb(map_types(t.fun, f), map_types(t.arg, f))
+    if t.is_abs():
+        return Abs(t.var_name, f(t.var_T), map_types(t.body, f))
+    return t
+
+
+def rename_names(t, mapping):
+    """Rename variables, schematic variables and suggested bound names according to `mapping`."""
+    if t.is_var():
+        return Var(mapping.get(t.name, t.name), t.T)
+    if t.is_svar():
+        return SVar(mapping.get(t.name, t.name), t.T)
+    if t.is_comb():
+        return Comb(rename_names(t.fun, mapping), rename_names(t.arg, mapping))
+    if t.is_abs():
+        return Abs(mapping.get(t.var_name, t.var_name), t.var_T, rename_names(t.body, mapping))
+    return t
 
 
 def type_of(t, env=()):
